@@ -2,30 +2,42 @@
 (* TV form of C19.  A trace is the program (one event per construct, with the AST of every       *)
 (* operand) together with what the real parser / command builder produced for it.                *)
 (*   kind "expr" : [e, got]                       one expression, value observed through an option *)
-(*   kind "prog" : DefOption / DefOptionStr / DefConst / BeginSection / Stmt(obs) / Refuse(obs) / End(iopts, sopts, ids) *)
-EXTENDS BdProg, Json, IOUtils
+(*   kind "prog" : DefOption / DefOptionStr / DefConst / DefSource / DefKeyblob / BeginSection / Stmt(obs) / Refuse(obs) / End(iopts, sopts, ids) *)
+(*   a SESSION (trace field sess): several programs given one after another to ONE parser object, separated by NextFile; *)
+(*   every End of a session also carries the NAMES of the tables the configuration of that file shows (onames, snames, kbids) *)
+EXTENDS BdSession, Json, IOUtils
 Traces == ndJsonDeserialize(IOEnv.TRACE_FILE)
 VARIABLES tid, l
 T == Traces[tid].ev
 E == T[l]
 Is(e) == l <= Len(T) /\ E.ev = e
 Adv == l' = l + 1 /\ UNCHANGED tid
-TInit == tid \in 1..Len(Traces) /\ l = 1 /\ PInit /\ TLCSet(tid, 1)
-TExpr == Is("Expr") /\ Dom(E.e, Empty) /\ E.got.k = "int" /\ E.got.v = Eval(E.e, Empty) /\ UNCHANGED pvars /\ Adv
-TDefOption == Is("DefOption") /\ DefOption(E.n, E.e) /\ Adv
-TDefOptionStr == Is("DefOptionStr") /\ DefOptionStr(E.n, E.v) /\ Adv
-TDefConst == Is("DefConst") /\ DefConst(E.n, E.e) /\ Adv
-TDefKeyblob == Is("DefKeyblob") /\ DefKeyblob(E.id, E.lo, E.hi, E.key, E.ctr) /\ Adv
-TBeginSection == Is("BeginSection") /\ BeginSection(E.id) /\ Adv
-TStmt == Is("Stmt") /\ Stmt(E.st) /\ E.obs = Expected(E.st, env) /\ Adv
-TRefuse == Is("Refuse") /\ Refuse(E.kind) /\ E.obs.t = "spsdk-error" /\ Adv
+Sess == "sess" \in DOMAIN Traces[tid]
+SetOf(s) == {s[i] : i \in 1..Len(s)}
+TInit == tid \in 1..Len(Traces) /\ l = 1 /\ SInit /\ TLCSet(tid, 1)
+TExpr == Is("Expr") /\ Dom(E.e, Empty) /\ E.got.k = "int" /\ E.got.v = Eval(E.e, Empty) /\ UNCHANGED pvars /\ UNCHANGED svars /\ Adv
+TDefOption == Is("DefOption") /\ SDefOption(E.n, E.e) /\ Adv
+TDefOptionStr == Is("DefOptionStr") /\ SDefOptionStr(E.n, E.v) /\ Adv
+TDefConst == Is("DefConst") /\ SDefConst(E.n, E.e) /\ Adv
+TDefSource == Is("DefSource") /\ DefSource(E.n, E.form, E.d) /\ Adv
+TDefKeyblob == Is("DefKeyblob") /\ SDefKeyblob(E.id, E.lo, E.hi, E.key, E.ctr) /\ Adv
+TBeginSection == Is("BeginSection") /\ SBeginSection(E.id) /\ Adv
+TStmt == Is("Stmt") /\ SStmt(E.st) /\ E.obs = Expected(E.st, env) /\ Adv
+TRefuse == Is("Refuse") /\ SRefuse(E.kind) /\ E.obs.t = "spsdk-error" /\ Adv
 TEnd == /\ Is("End") /\ phase = "section"
         /\ E.iopts = iopts /\ E.sopts = sopts
         /\ E.ids = [i \in 1..Len(secs) |-> secs[i].id]
         /\ E.counts = [i \in 1..Len(secs) |-> Len(secs[i].cmds)]
-        /\ UNCHANGED pvars /\ Adv
-TEndRefused == Is("EndRefused") /\ phase = "refused" /\ UNCHANGED pvars /\ Adv
-TNext == TExpr \/ TDefOption \/ TDefOptionStr \/ TDefConst \/ TDefKeyblob \/ TBeginSection \/ TStmt \/ TRefuse \/ TEnd \/ TEndRefused
+        \* a session shows, for every file, the tables of THAT file and nothing else
+        /\ (Sess => /\ SetOf(E.onames) = OptNames
+                    /\ SetOf(E.snames) = DOMAIN srcs
+                    /\ E.kbids = KbIdSeq)
+        /\ UNCHANGED pvars /\ UNCHANGED svars /\ Adv
+TEndRefused == Is("EndRefused") /\ phase = "refused" /\ UNCHANGED pvars /\ UNCHANGED svars /\ Adv
+\* the next file goes to the same parser object once the result of the file before it has been observed
+TNextFile == /\ Is("NextFile") /\ Sess /\ l > 1 /\ T[l - 1].ev \in {"End", "EndRefused"}
+             /\ SNextFile /\ Adv
+TNext == TExpr \/ TDefOption \/ TDefOptionStr \/ TDefConst \/ TDefSource \/ TDefKeyblob \/ TBeginSection \/ TStmt \/ TRefuse \/ TEnd \/ TEndRefused \/ TNextFile
 Constr == IF TLCGet(tid) < l THEN TLCSet(tid, l) ELSE TRUE
 Post == \A i \in 1..Len(Traces) :
           \/ TLCGet(i) - 1 = Len(Traces[i].ev)
